@@ -6,6 +6,7 @@ package shadow
 import (
 	"fmt"
 	"unicode"
+	"unicode/utf8"
 
 	"github.com/gdamore/tcell/v2"
 	runewidth "github.com/mattn/go-runewidth"
@@ -331,7 +332,16 @@ func (s *Screen) Expect(caps Caps) []Want {
 			if st.IsZero() {
 				st = s.Default
 			}
-			comb := string(c.Comb)
+			// what is no combining mark at all is not shown: control characters, values that
+			// are no characters (surrogates, beyond U+10FFFF, noncharacters)
+			var cm []rune
+			for _, m := range c.Comb {
+				if m < ' ' || (m >= 0x7f && m < 0xa0) || !utf8.ValidRune(m) || (m >= 0xfdd0 && m <= 0xfdef) || m&0xfffe == 0xfffe {
+					continue
+				}
+				cm = append(cm, m)
+			}
+			comb := string(cm)
 			if wd == 2 && x+1 >= s.W {
 				r, wd, comb = ' ', 1, "" // a wide rune in the last column is shown as a blank
 			}
